@@ -177,6 +177,22 @@ def final_relabel(repo, res):
         if isinstance(n, ast.Assign) and len(n.targets) == 1 and isinstance(n.targets[0], ast.Name):
             if n.targets[0].id == 'relabel_map' and nf(n.value) == nf_text('_create_relabel_map(segm_deblended, start_label=1)'):
                 ok1 = True
+                # labels 1..N for relabel=True on EVERY path: the step depends on `relabel` alone
+                from ..guards import guard_of, atoms
+                all_atoms = set(atoms(guard_of(n, f.node)))
+                # conditions of the enclosing `if`s only (argument validation that raises earlier is irrelevant)
+                g_atoms = set()
+                ch, par = n, getattr(n, '_parent', None)
+                while par is not None and par is not f.node:
+                    if isinstance(par, ast.If) and any(x is ch for x in par.body + par.orelse):
+                        g_atoms |= set(atoms(guard_of(par.body[0], par)))
+                    ch, par = par, getattr(par, '_parent', None)
+                okg = g_atoms <= {'relabel'} and 'relabel' in all_atoms
+                res.oblige('RELABEL', 'deblend_sources: the final relabel step is conditioned on `relabel` only', okg, nontrivial=True)
+                if not okg:
+                    res.add(Finding('RELABEL', f.fullname, 'final relabel guard', f'{f.module.relpath}:{n.lineno}',
+                                    f'deblend_sources: the final relabel step runs under conditions {sorted(g_atoms)} instead of '
+                                    f'`relabel` alone: with relabel=True the output labels are not 1..N when the extra condition fails', {}))
             if n.targets[0].id == 'segm_deblended' and nf(n.value) == nf_text('relabel_map[segm_deblended]'):
                 ok2 = True
     calls = SP.find_calls(f.node, '_update_deblend_label_map')
